@@ -16,6 +16,7 @@ from mido import Message, MetaMessage, MidiFile, MidiTrack, second2tick, tick2se
 from .c12 import model_merge
 
 ID = 'C13'
+ANCHORS = ['mido.midifiles.midifiles', 'mido.midifiles.units']
 LEVEL = 'exploration'
 RULE = ('seeded files: type 0/1, 1-4 tracks, ticks_per_beat from {1,2,96,480,32767,random}, '
         'deltas 0..large, set_tempo anywhere (tick 0, same tick as other messages, consecutive, '
